@@ -244,6 +244,28 @@ def run_case(ctx, h, m, schema, pop, holes, states, strict, workdir, tag, reuse=
     return None
 
 
+K_MANY_DELETED = "ws:more-than-maxErrorCount-deleted-entries"
+
+
+def many_deleted(ctx, h, schema, workdir, n):
+    """a saved session whose DATA section starts with n entries marked deleted, followed by one live instance, opened in a fresh
+    STEPfile: the live instance must be there (oracle only; the model's statement is C16_too_many_deleted_witness / DelBound)"""
+    t0 = schema.targets[0].upper()
+    pop = [G.Inst(j + 1, [(t0, [("tok", "1"), ("null",), ("null",)])]) for j in range(n + 1)]
+    path = os.path.join(workdir, f"many_{n}.wsf")
+    open(path, "w").write(G.render(schema.name, pop, working=["D"] * n + ["C"]))
+    h.cmd("reset 1")
+    r = kv(h.cmd(f"readwork {path}"))
+    d = parse_dump(h.cmd("dump"))
+    os.unlink(path)
+    ctx.count(1, key=("many-deleted", n))
+    ctx.hist("leading deleted instances", str(n))
+    if [int(a) for a, _, _ in d] != [n + 1]:
+        return (f"a working-session file with {n} entries marked deleted in front of `C#{n + 1}={t0}(1,$,$);`: after ReadWorkingFile the session "
+                f"holds {[a for a, _, _ in d]} (severity {r['sev']}), expected exactly the not-deleted instance [{n + 1}]")
+    return None
+
+
 def closed_wrt(pop):
     ids = {i.id for i in pop}
     return all(r in ids for i in pop for r in G.inst_refs(i))
@@ -266,6 +288,8 @@ def run(ctx):
         "lenient mode: unset required INTEGER/REAL/NUMBER/STRING values are substituted on reading (C15), in working-session "
         "files exactly as in exchange files",
     ]
+    from checks.c15 import baseline_generated, GENERATED_FILES
+    baseline_generated(GENERATED_FILES)
     proof_ok = ctx.lean("StepModel.Props.C16", exes=["m_c16"], extractors=EXTRACTORS)
     if not proof_ok:
         from vlib import lean as L
@@ -289,6 +313,16 @@ def run(ctx):
         t, n, corr = time.time(), 0, []
         try:
             check_schema_table(h, s)
+            if s is schemas[0]:
+                # around STEPfile::_maxErrorCount (100000): every skipped `D` entry is counted as a record that yielded no instance
+                for nd in (99999, 100000, 100001):
+                    e = many_deleted(ctx, h, s, wd, nd)
+                    if e:
+                        t0 = s.targets[0].upper()
+                        ctx.violation(K_MANY_DELETED if nd > 100000 else f"ws:deleted-run:{nd}", e,
+                                      {"schema_express": s.express(), "schema_name": s.name, "leading_deleted": nd,
+                                       "how": f"working-session file: {nd} lines `D#i={t0}(1,$,$);` (i = 1..{nd}) then `C#{nd + 1}={t0}(1,$,$);`; "
+                                              "harness: reset 1; readwork FILE; dump"})
             for pi_ in range(n_pops):
                 pop0 = G.gen_population(ctx.rng, s, ctx.rng.randint(1, 5 if quick else 8), p_null_optional=0.3)
                 pop, holes = partial_fill(ctx.rng, s, pop0, p=0.0 if pi_ % 3 == 0 else 0.35)
@@ -302,10 +336,24 @@ def run(ctx):
                 for ai in range(n_assign):
                     mode = ["any", "complete", "nodelete", "any", "uniform", "complete"][ai % 6]
                     states = assign_states(ctx.rng, pop, mode)
-                    reuse = ai % 3 != 0            # two of three histories continue in the session of the previous one
+                    # a run of deleted instances in FRONT of everything else (boundary values of the reader's give-up rules)
+                    nlead = [0, 0, 1, 49, 50, 51, 120, 0][(pi_ * n_assign + ai) % 8]
+                    pop_h, holes_h, states_h = pop, holes, states
+                    if nlead:
+                        base_id = max(i.id for i in pop) + 1000
+                        lead = [G.Inst(base_id + j, [(s.targets[0].upper(), [("tok", str(j % 7)), ("null",), ("tok", ctx.rng.choice(G.TRICKY_STRS))])])
+                                for j in range(nlead)]
+                        pop_h = lead + pop
+                        states_h = ["deleteSE"] * nlead + states
+                        holes_h = [(i + nlead, a, b_, c) for i, a, b_, c in holes]
+                    ctx.hist("leading deleted instances", str(nlead))
+                    pop, holes, states, saved = pop_h, holes_h, states_h, (pop, holes, states)
+                    # sessions: ai%3 = 1, 2 continue in the STEPfile of the previous history, except ai%6 = 4: a working-session file
+                    # opened in a FRESH STEPfile object (what a new process does), with optional header entities
+                    reuse = ai % 3 != 0 and ai % 6 != 4
                     strict = pi_ % 2 if True else 0    # the mode is fixed when the STEPfile is made: constant per session
                     wc = 1 if ai % 4 != 3 else 0
-                    header = G.gen_header(ctx.rng, s.name, n_extra=[0, 1, 3, 2][ai % 4])      # 3 and 4+ header entities, new contents every time
+                    header = G.gen_header(ctx.rng, s.name, n_extra=[0, 1, 3, 2, 3, 1][ai % 6])   # 3 and 4+ header entities, new contents every time
                     start = "working" if ai % 3 != 0 else "exchange"      # ai%3 = 1, 2: ReadWorkingFile(A) then ReadWorkingFile(B) in one STEPfile
                     r = run_case(ctx, h, m, s, pop, holes, states, strict, wd, "c", reuse=(reuse and ai > 0), wc=wc, header=header, start=start)
                     ctx.hist("history starts from", start + " file")
@@ -320,6 +368,7 @@ def run(ctx):
                     n += 1
                     if not r:
                         prev_case = (pop, holes, states, header, start)
+                        pop, holes, states = saved
                     ctx.count(1, key=(s.name, pi_, ai))
                     ctx.hist("mode", "strict" if strict else "lenient")
                     for st in states:
@@ -406,8 +455,18 @@ def replay(ctx, path):
     open(exp, "w").write(r["schema_express"])
     exe = os.path.join(wd, "h_p21")
     B.gen_schema_lib(b, exp, os.path.join(wd, "gen"), [HARNESS], exe)
-    pop = [i for _, i in G.parse_p21(r["file"])[2]]
     schema = _SchemaFromExpress(r["schema_express"])
+    if "leading_deleted" in r:
+        h = Harness(exe, b.env())
+        try:
+            e = many_deleted(ctx, h, schema, wd, int(r["leading_deleted"]))
+            print("result:", e)
+            if e:
+                ctx.violation(d.get("key", "replay"), e, r)
+        finally:
+            h.close()
+        return
+    pop = [i for _, i in G.parse_p21(r["file"])[2]]
     h = Harness(exe, b.env())
     m = Model(ctx.model_exe("m_c16"), schema)
     try:
